@@ -20,7 +20,11 @@ def kat():
     return [v for v in d["vectors"] if v["kind"] == "signature"]
 
 
+TWINS = []
+
+
 def requests(tier, rng):
+    del TWINS[:]
     L = [K.keygen(s, bytes(rng.randrange(256) for _ in range(32))) for s in K.SETS]
     for v in kat():
         L.append("sign::%s::signature %s %s 0 -" % (v["set"], v["msg"], v["sk"]))
@@ -70,6 +74,13 @@ def followup(stage, lines, model, checked, release, tier, rng):
         csk = K.craft_sk(s, sk, 1, 1.0, rng)
         for _ in range(4 if tier == "quick" else 120):
             L.append(K.sign_raw(s, R(8), csk, 0))
+        # caller's signature buffer longer than SIGNBYTES (the raw entry point takes a slice): same signature in front
+        for j, extra in enumerate((1, 33, 64)):
+            ref = [l for l in L if l.startswith("sign::%s::signature " % s) and l.split()[2] == sk][j * 2]
+            t = ref.split()
+            tw = "@impl sign::%s::signature_cap %d %s %s 0 -" % (s, extra, t[1], t[2])
+            L.append(tw)
+            TWINS.append((tw, ref, "signing into a buffer %d bytes longer than SIGNBYTES must write the same signature" % extra))
         msg = R(50)
         L.append(K.sign_raw(s, msg, sk, 1, R(70)))      # hedged / randomized with a scripted tape
         L.append(K.sign_raw(s, msg, sk, 1, R(70)))
